@@ -11,8 +11,10 @@ and at quiescence (both queues empty) J implies agreement on BINDING / not BINDI
 
 Application assumptions of the statement: a call is part of the history only if its session accepts it (guard = the
 contract's raise condition is false); the server answers a request it has received with a response of the matching
-kind.  Fragment: both sessions alive (no unbind / notice of disconnection / protocol error); the terminations are
-covered by the bounded exploration of props/native_joint.py.  Byte-level chunked delivery reduces to message delivery by
+kind.  The invariant J covers the alive phase; the two designed terminations (client unbind, server notice of
+disconnection) are added as terminal steps: the call is accepted and closes its side, the delivery of the termination
+message must raise and leaves the receiver CLOSED.  The bounded exploration of props/native_joint.py covers the same
+histories including terminations.  Byte-level chunked delivery reduces to message delivery by
 C02 (lemma_chunk) and received values equal sent values by C01 - both used as lemmas here.
 """
 from __future__ import annotations
@@ -125,8 +127,32 @@ class Bridge:
             env[w] = v.fresh_of_type(c.witness_sorts.get(w, "bytes"), p, fi.module, name=w)
         qpost = v.spec_path(p, env, old=pre_env)
         ensures = [v.eval_clause(cl, qpost, fi.module) for cl in c.ensures]
+        # exceptional outcome (first listed exception class): post-state havocked separately, exceptional postconditions
+        on_raise, post_x = [], None
+        if c.raises:
+            from .symexec import on_raise_clauses
+            exc_cls = list(c.raises)[0]
+            px = dict(bound)
+            px["self"] = copy.deepcopy(recv)
+            for m in c.modifies:
+                parts = m.split(".")
+                if parts[0] == "self" and len(parts) == 2:
+                    px["self"].fields[parts[1]] = v.havoc_like(px["self"].fields[parts[1]], p, parts[1] + "x")
+            exc = VExc(exc_cls, {})
+            px["exc"] = exc
+            for w in c.witness:
+                px[w] = v.fresh_of_type(c.witness_sorts.get(w, "bytes"), p, fi.module, name=w + "x")
+            qx = v.spec_path(p, px, old=pre_env)
+            v.exc_fields_from_contract(exc, c, qx, fi.module, p)
+            on_raise = []
+            for cl in on_raise_clauses(c, exc_cls, v.prog):
+                try:
+                    on_raise.append(v.eval_clause(cl, qx, fi.module))
+                except Unsupported:
+                    pass        # a clause about a local of the function's raise site (the attached response): not needed here
+            post_x = px["self"]
         return {"requires": requires, "raises": z3.Or(*raise_conds) if raise_conds else z3.BoolVal(False), "ensures": ensures,
-                "post": post["self"], "result": result, "facts": list(p.pc), "env": env}
+                "post": post["self"], "result": result, "facts": list(p.pc), "env": env, "on_raise": on_raise, "post_x": post_x}
 
 
 def run(src_root=None, timeout_ms=20000):
@@ -278,6 +304,86 @@ def run(src_root=None, timeout_ms=20000):
     S2 = s.upd(rh=s.rh + 1, fin=z3.If(isfinal(k), z3.Store(s.fin, i_, False), s.fin), bid=z3.If(z3.Or(k == FINAL, k == SASL), 0, s.bid),
                stC=post.fields["state"].t, outC=post.fields["_outstanding_requests"].t, srchC=post.fields["_search_requests"].t, ctr=post.fields["_message_counter"].t)
     keep("c_recv", guard + tr["requires"] + tr["ensures"] + [z3.Not(tr["raises"])], S2, "client delivery")
+    # ---------------- designed terminations: unbind (client) and notice of disconnection (server)
+    # From an alive J-state one side ends the session.  Until the termination message is delivered the other side goes on
+    # from the same J-state (J is then read over the frozen fields of the closed side: the keep obligations above quantify
+    # over every J-state and none of the other side's actions touches those fields - paper step).  What is discharged here:
+    # the terminating call is accepted and closes its side; the delivery of the termination message cannot return normally
+    # (receive never returns a termination message), so it raises, and every raise of receive leaves the session CLOSED
+    # with nothing in progress; hence both sides are CLOSED once the termination has been delivered.
+    def empty_set_t():
+        return z3.K(I, z3.BoolVal(False))
+
+    UNB, XRESP = ids("UnbindRequest")[0], ids("ExtendedResponse")[0]
+    name_of = v.func("fld_name", Obj, z3.DeclareSort("Str")) if False else None
+    # (1) client.unbind()
+    tr = br.transition("_session:LDAPClient/LDAPSession.unbind", "_session:LDAPSession.unbind", cli_obj(), [])
+    guard = [z3.Not(tr["raises"])] + tr["facts"]
+    for j_, rq in enumerate(tr["requires"]):
+        discharge(f"joint/c_unbind/req[{j_}]", allpre + guard, rq, "client unbind: precondition of the contract follows from J")
+    discharge("joint/c_unbind/accepted", allpre, z3.Not(tr["raises"]), "an alive client may always end the session (unbind is never refused)")
+    discharge("joint/c_unbind/closed", allpre + guard + tr["requires"] + tr["ensures"],
+              z3.And(tr["post"].fields["state"].t == CL, tr["post"].fields["_outstanding_requests"].t == empty_set_t()),
+              "after unbind the client is CLOSED with nothing in progress")
+    # (2) server.receive(bytes of exactly that unbind request)
+    for side, ckey, mk, term_fact, label in (
+            ("s", "_session:LDAPServer.receive", srv_obj, lambda mm: cls_of(mm) == UNB, "server receives the unbind request"),
+            ("c", "_session:LDAPClient.receive", cli_obj, None, "client receives the notice of disconnection")):
+        o_ = mk()
+        p0 = Path()
+        data = v.fresh_of_type("bytes", p0, "_session", "data")
+        tr = br.transition(ckey, ckey, o_, [data])
+        mm = z3.Const("tm_" + side, Obj)
+        res_t = tr["result"].t
+        if term_fact is None:
+            q_ = Path(); q_.spec = True
+            q_.env = {"m": VSym(mm, v.prog.classes["_messages.LDAPMessage"])}
+            term = v.truth(v.ev(parse_expr("isinstance(m, ExtendedResponse) and m.name == ExtendedOperations.LDAP_NOTICE_OF_DISCONNECTION.value"), q_, "_session"), q_)
+            extra = list(q_.pc)
+        else:
+            term, extra = term_fact(mm), []
+        # C02 / C01 as lemmas: the delivered bytes are exactly the encoding of the termination message, so the decoded list is [m]
+        delivered = [z3.Length(res_t) == 1, res_t[0] == mm, term] + extra
+        alive = [o_.fields["state"].t != CL]
+        # vacuity canary: without the fact that the delivered message is a termination, a normal return must remain possible
+        t0c = time.time()
+        rcan, _, _ = _check(allpre + alive + p0.pc + tr["facts"] + tr["requires"] + tr["ensures"] + delivered[:2] + v.global_axioms(), [], z3.BoolVal(False), 4000)
+        out.append({"name": f"joint/{side}_recv_term/canary", "kind": "joint", "status": "refuted" if rcan == z3.unsat else "proved", "time": round(time.time() - t0c, 3),
+                    "backend": "z3 (canary: 'False' must not follow when the delivered message is an ordinary one)", "lineno": 0,
+                    "clause": f"{label}: hypotheses are not contradictory ({'CONTRADICTORY' if rcan == z3.unsat else str(rcan)})", "function": "joint", "model": None, "reason": ""})
+        discharge(f"joint/{side}_recv_term/raises", allpre + alive + p0.pc + tr["facts"] + tr["requires"] + tr["ensures"] + delivered, z3.BoolVal(False),
+                  f"{label}: a normal return is impossible (receive never returns a termination message), so the delivery raises ProtocolError")
+        discharge(f"joint/{side}_recv_term/closed", allpre + alive + p0.pc + tr["facts"] + tr["requires"] + tr["on_raise"],
+                  z3.And(tr["post_x"].fields["state"].t == CL, tr["post_x"].fields["_outstanding_requests"].t == empty_set_t()),
+                  f"{label}: whatever it raises, the session is CLOSED afterwards with nothing in progress")
+    # (3) server sends the notice of disconnection for an outstanding request x
+    sv_ = srv_obj()
+    ckey = "_session:LDAPServer.extended_response"
+    fi = v.prog.functions[ckey]
+    p0 = Path()
+    qn = Path(); qn.spec = True
+    notice_v = v.ev(parse_expr("ExtendedOperations.LDAP_NOTICE_OF_DISCONNECTION"), qn, "_session")
+    args = []
+    for pn, ann, d in fi.params()[1:]:
+        ty = v.contracts[ckey].params.get(pn) or v.ann_text(ann)
+        if pn == "message_id":
+            args.append(VInt(x))
+        elif pn == "name":
+            args.append(notice_v)
+        elif pn == "result_code":
+            args.append(VInt(z3.Int("rc_n")))
+        elif ty.startswith("t.Optional["):
+            args.append(NONE)
+        else:
+            args.append(v.fresh_of_type(ty, p0, fi.module, pn))
+    tr = br.transition(ckey, ckey, sv_, args)
+    guard = [z3.Not(tr["raises"])] + p0.pc + tr["facts"]
+    for j_, rq in enumerate(tr["requires"]):
+        discharge(f"joint/s_notice/req[{j_}]", allpre + guard, rq, "server notice of disconnection: precondition of the contract follows from J")
+    discharge("joint/s_notice/closed", allpre + guard + tr["requires"] + tr["ensures"], tr["post"].fields["state"].t == CL,
+              "after sending the notice of disconnection the server is CLOSED")
+    discharge("joint/s_notice/allowed-while-binding", allpre + [s.outS[x]], z3.Not(tr["raises"]),
+              "the notice may answer any request in progress, also while a bind is in progress")
     # ---------------- initial state and quiescence
     e = z3.Int("e")
     init = St("0")
